@@ -67,6 +67,7 @@ type Prog struct {
 	tagTypes   []types.Type
 	globalIDs  map[*ssa.Global]int
 	rtypeOf    map[*ssa.Global]types.Type // reflect.Type globals -> denoted type
+	rtypeStruct map[*ssa.Global]bool      // the global is a one-field struct wrapping the reflect.Type (tensor.Dtype)
 	rtypeIDs   map[string]int             // denoted type string -> id
 	rtypeNames map[int]string
 	loops      map[*ssa.Function][]*Loop
@@ -127,7 +128,7 @@ func LoadProg(repo string, tags string) (*Prog, error) {
 	P := &Prog{
 		prog: prog, pkgs: map[string]*ssa.Package{}, ppkgs: map[string]*packages.Package{},
 		funcs: map[string]*ssa.Function{}, fnFile: map[string]string{}, repo: repo, tags: tags,
-		typeTags: map[string]int{}, globalIDs: map[*ssa.Global]int{}, rtypeOf: map[*ssa.Global]types.Type{},
+		typeTags: map[string]int{}, globalIDs: map[*ssa.Global]int{}, rtypeOf: map[*ssa.Global]types.Type{}, rtypeStruct: map[*ssa.Global]bool{},
 		rtypeIDs: map[string]int{}, rtypeNames: map[int]string{}, loops: map[*ssa.Function][]*Loop{}, schemaMiss: map[string]bool{}, funcIDs: map[*ssa.Function]int{},
 	}
 	P.fset = prog.Fset
@@ -183,6 +184,17 @@ func (P *Prog) resolveRTypeGlobals() {
 					}
 					g, ok := st.Addr.(*ssa.Global)
 					if !ok {
+						// Dtype-like globals: a struct whose only field is the reflect.Type
+						if fa, ok2 := st.Addr.(*ssa.FieldAddr); ok2 && fa.Field == 0 {
+							if g2, ok3 := fa.X.(*ssa.Global); ok3 {
+								if stt, ok4 := g2.Type().(*types.Pointer).Elem().Underlying().(*types.Struct); ok4 && stt.NumFields() == 1 {
+									if t := P.denotedType(st.Val); t != nil {
+										P.rtypeOf[g2] = t
+										P.rtypeStruct[g2] = true
+									}
+								}
+							}
+						}
 						continue
 					}
 					if t := P.denotedType(st.Val); t != nil {
